@@ -50,7 +50,33 @@ impl<'g> FnCx<'g> {
             syn::Expr::Lit(l) => self.lit(&l.lit, expect, e.span()),
             syn::Expr::Path(p) => self.path_expr(p, expect),
             syn::Expr::Unary(u) => match u.op {
-                syn::UnOp::Deref(_) => self.expr(&u.expr, expect),
+                syn::UnOp::Deref(_) => {
+                    // `*map.entry(k).or_insert(v)`: the value stored under k, inserting v first when k is absent
+                    if let syn::Expr::MethodCall(oi) = strip_paren(&u.expr) {
+                        if oi.method == "or_insert" && oi.args.len() == 1 {
+                            if let syn::Expr::MethodCall(en) = strip_paren(&oi.receiver) {
+                                if en.method == "entry" && en.args.len() == 1 {
+                                    let (cur, pty, setter) = self.place(&en.receiver)?;
+                                    let (kt, vt) = match self.u.resolve(&pty) {
+                                        Ty::Map(k, v) => (*k, *v),
+                                        _ => return unsupported("entry() on a non-map", e.span()),
+                                    };
+                                    let key = self.expr(&en.args[0], Some(&kt))?;
+                                    self.u.unify(&kt, &key.ty)?;
+                                    let val = self.expr(&oi.args[0], Some(&vt))?;
+                                    self.u.unify(&vt, &val.ty)?;
+                                    let mut steps = key.steps.clone();
+                                    steps.extend(val.steps.clone());
+                                    let tmp = self.fresh_tmp();
+                                    steps.push(Step::Let(tmp.clone(), format!("rsEntryOrInsert {} {} {}", paren_atom(&cur), paren_atom(&key.atom), paren_atom(&val.atom))));
+                                    steps.push(setter(&format!("{}.2", tmp)));
+                                    return Ok(Val { steps, atom: format!("{}.1", tmp), prop: None, ty: vt });
+                                }
+                            }
+                        }
+                    }
+                    self.expr(&u.expr, expect)
+                }
                 syn::UnOp::Neg(_) => {
                     let v = self.expr(&u.expr, expect)?;
                     let ty = self.u.resolve(&v.ty);
@@ -139,8 +165,8 @@ impl<'g> FnCx<'g> {
             }
             syn::Expr::If(_) | syn::Expr::Match(_) | syn::Expr::Block(_) => {
                 // a control-flow construct used as a value: compile its branches to values and join
-                if has_escape(e) {
-                    return unsupported("control flow that leaves a construct used as a value", e.span());
+                if has_escape(e) || self.mutates_state(e) {
+                    return unsupported("control flow or mutation inside a construct used as a value", e.span());
                 }
                 self.value_join(e, expect)
             }
@@ -563,6 +589,60 @@ impl<'g> FnCx<'g> {
                 return Ok(Val { steps: vec![Step::Guard("False".into(), ".panic".into())], atom: "default".into(), prop: None, ty: expect.cloned().unwrap_or(Ty::Never) });
             }
             ("io::Error::new", 2) => return Ok(Val::pure("Err.io", Ty::Error)),
+            ("std::cmp::min", 2) | ("cmp::min", 2) | ("std::cmp::max", 2) | ("cmp::max", 2) => {
+                let x = self.expr(args[0], expect)?;
+                let y = self.expr(args[1], Some(&x.ty))?;
+                let t = self.u.unify(&x.ty, &y.ty)?;
+                let mut steps = x.steps.clone();
+                steps.extend(y.steps.clone());
+                let is_min = last == "min";
+                let (a, b) = (paren_atom(&x.atom), paren_atom(&y.atom));
+                // std: min returns the first argument unless it is greater; max returns the second unless the first is greater
+                let atom = match &t {
+                    Ty::Tuple(ts) if ts.len() == 2 && ts.iter().all(|q| matches!(q, Ty::Int(it) if !it.signed())) => {
+                        if is_min { format!("(if ltPair {} {} then {} else {})", b, a, b, a) } else { format!("(if ltPair {} {} then {} else {})", b, a, a, b) }
+                    }
+                    Ty::Int(_) | Ty::IVar(_) => {
+                        if is_min { format!("(if {} < {} then {} else {})", b, a, b, a) } else { format!("(if {} < {} then {} else {})", b, a, a, b) }
+                    }
+                    _ => return unsupported("min/max on this type", c.span()),
+                };
+                return Ok(Val { steps, atom, prop: None, ty: t });
+            }
+            ("std::mem::take", 1) | ("mem::take", 1) => {
+                // take(&mut x.f): the old value; the place is left with `Default::default()` (an empty list here)
+                let place = match strip_paren(args[0]) {
+                    syn::Expr::Reference(r) if r.mutability.is_some() => strip_paren(&r.expr),
+                    _ => return unsupported("mem::take of something other than &mut place", c.span()),
+                };
+                let (cur, ty, set) = self.place(place)?;
+                if !matches!(self.u.resolve(&ty), Ty::List(_) | Ty::Str) {
+                    return unsupported("mem::take of a non-list", c.span());
+                }
+                let tmp = self.fresh_tmp();
+                let mut steps = vec![Step::Let(tmp.clone(), cur)];
+                steps.push(set("[]"));
+                return Ok(Val { steps, atom: tmp, prop: None, ty });
+            }
+            ("std::mem::size_of", 0) | ("mem::size_of", 0) | ("size_of", 0) => {
+                // size of a `repr(C, packed)` struct of u32 fields (the only kind translated): 4 bytes per field
+                if let syn::PathArguments::AngleBracketed(ab) = &p.segments.last().unwrap().arguments {
+                    if let Some(syn::GenericArgument::Type(t)) = ab.args.first() {
+                        if let Ty::Struct(n) = rust_ty(t)? {
+                            let fields = self.g.structs.get(&n).cloned().unwrap_or_default();
+                            if !fields.is_empty() && fields.iter().all(|(_, t)| *t == Ty::Int(IntTy::U32)) && self.g.packed.contains(&n) {
+                                return Ok(Val::pure((4 * fields.len()).to_string(), Ty::usize()));
+                            }
+                        }
+                    }
+                }
+                return unsupported("size_of of this type", c.span());
+            }
+            ("str::from_utf8", 1) | ("std::str::from_utf8", 1) => {
+                let v = self.expr(args[0], Some(&Ty::bytes()))?;
+                return Ok(Val { steps: v.steps, atom: format!("(rsFromUtf8 {})", paren_atom(&v.atom)), prop: None, ty: Ty::res(Ty::Str) });
+            }
+            ("BufReader::new", 1) => return self.expr(args[0], expect),
             ("String::from_utf8", 1) => {
                 // only the all-ASCII case is modelled as success (a conservative reading: non-ASCII valid UTF-8
                 // would succeed in Rust; the translated callers only ever build ASCII)
@@ -571,6 +651,20 @@ impl<'g> FnCx<'g> {
                 return Ok(Val { steps: v.steps, atom: format!("(if {}.all (fun b_ => decide (b_ < 128)) then some {} else none)", paren_atom(&v.atom), paren_atom(&v.atom)), prop: None, ty: Ty::opt(Ty::Str) });
             }
             ("Cow::Borrowed", 1) | ("Cow::Owned", 1) => return self.expr(args[0], expect),
+            ("__rs2lean_concat", _) => {
+                // pieces of a format! string: `Display` of a `&str`/`String` is the string itself
+                let mut steps = vec![];
+                let mut atoms = vec![];
+                for a in &args {
+                    let v = self.expr(a, Some(&Ty::Str))?;
+                    if self.u.resolve(&v.ty) != Ty::Str {
+                        return unsupported("format! of a non-string value", c.span());
+                    }
+                    steps.extend(v.steps);
+                    atoms.push(paren_atom(&v.atom));
+                }
+                return Ok(Val { steps, atom: format!("({})", atoms.join(" ++ ")), prop: None, ty: Ty::Str });
+            }
             ("__rs2lean_vec", _) => {
                 let el = match expect.map(|t| self.u.resolve(t)) {
                     Some(Ty::List(t)) => Some(*t),
@@ -588,6 +682,13 @@ impl<'g> FnCx<'g> {
                 return Ok(Val { steps, atom: format!("[{}]", atoms.join(", ")), prop: None, ty: Ty::list(ety) });
             }
             ("BitVec::new", 0) => return Ok(Val::pure("[]", Ty::list(Ty::Bool))),
+            ("FxHashMap::default", 0) | ("HashMap::new", 0) | ("HashMap::default", 0) => {
+                let ty = match expect.map(|t| self.u.resolve(t)) {
+                    Some(t @ Ty::Map(..)) => t,
+                    _ => return unsupported("map constructor without a known type", c.span()),
+                };
+                return Ok(Val::pure("[]", ty));
+            }
             // capacity hints are not modelled (the argument is not evaluated)
             ("Vec::new", 0) | ("String::new", 0) | ("Vec::with_capacity", 1) | ("String::with_capacity", 1) => {
                 if let syn::PathArguments::AngleBracketed(ab) = &p.segments[0].arguments {
@@ -609,6 +710,26 @@ impl<'g> FnCx<'g> {
                 return Ok(Val::pure("[]", ty));
             }
             _ => {}
+        }
+        // constructors of translated enums
+        if p.segments.len() == 2 {
+            let en = p.segments[0].ident.to_string();
+            if let Some(vars) = self.g.enums.get(&en).cloned() {
+                if let Some((_, tys)) = vars.iter().find(|(v, _)| *v == last) {
+                    if tys.len() != args.len() {
+                        return unsupported("enum constructor arity", c.span());
+                    }
+                    let mut steps = vec![];
+                    let mut atoms = vec![];
+                    for (a, t) in args.iter().zip(tys.iter()) {
+                        let v = self.expr(a, Some(t))?;
+                        self.u.unify(t, &v.ty)?;
+                        steps.extend(v.steps);
+                        atoms.push(paren_atom(&v.atom));
+                    }
+                    return Ok(Val { steps, atom: format!("({}.{} {})", en, sanitize(&last), atoms.join(" ")), prop: None, ty: Ty::Struct(en) });
+                }
+            }
         }
         // Error::Variant(payload): payload evaluated for panics only, then dropped
         if p.segments.len() == 2 && p.segments[0].ident == "Error" {
@@ -936,6 +1057,15 @@ impl<'g> FnCx<'g> {
                         Ok(Val { steps: inner.steps, atom: format!("{}.reverse", paren_atom(&inner.atom)), prop: None, ty: inner.ty })
                     }
                     "collect" | "as_slice" => self.iter_expr(&m.receiver),
+                    "lines" if m.args.is_empty() => {
+                        // BufRead::lines over a byte slice: each item is io::Result<String>
+                        let recv = self.expr(&m.receiver, None)?;
+                        match self.u.resolve(&recv.ty) {
+                            Ty::List(t) if *t == Ty::u8() => {}
+                            _ => return unsupported("lines() on something other than a byte reader", e.span()),
+                        }
+                        Ok(Val { steps: recv.steps, atom: format!("(rsLines {})", paren_atom(&recv.atom)), prop: None, ty: Ty::list(Ty::res(Ty::Str)) })
+                    }
                     "tokens" if m.args.is_empty() => {
                         let recv = self.expr(&m.receiver, None)?;
                         match self.u.resolve(&recv.ty) {
@@ -1028,8 +1158,35 @@ impl<'g> FnCx<'g> {
         }
     }
 
+    /// a mutable place: a variable or a field of a struct variable.  Returns (current value, type, setter)
+    pub fn place(&mut self, e: &syn::Expr) -> R<(String, Ty, Box<dyn Fn(&str) -> Step>)> {
+        match strip_paren(e) {
+            syn::Expr::Field(f) => {
+                let (_, var) = self.assign_target(&f.base)?;
+                let fname = match &f.member {
+                    syn::Member::Named(i) => i.to_string(),
+                    _ => return unsupported("tuple field as a place", e.span()),
+                };
+                let fty = match self.u.resolve(&var.ty) {
+                    Ty::Struct(sn) => self.g.structs.get(&sn).and_then(|fs| fs.iter().find(|(n, _)| *n == fname).map(|(_, t)| t.clone())),
+                    _ => None,
+                }
+                .ok_or(format!("unsupported: field {} as a place", fname))?;
+                let lean = var.lean.clone();
+                let fl = sanitize(&fname);
+                let cur = format!("{}.{}", lean, fl);
+                Ok((cur, fty, Box::new(move |v: &str| Step::Let(lean.clone(), format!("{{ {} with {} := {} }}", lean, fl, v)))))
+            }
+            other => {
+                let (_, var) = self.assign_target(other)?;
+                let lean = var.lean.clone();
+                Ok((var.lean.clone(), var.ty.clone(), Box::new(move |v: &str| Step::Let(lean.clone(), v.to_string()))))
+            }
+        }
+    }
+
     pub fn is_mutating_method(&self, m: &syn::ExprMethodCall) -> bool {
-        matches!(m.method.to_string().as_str(), "push" | "push_str" | "clear" | "truncate" | "extend_from_slice" | "resize" | "store_le" | "pop" | "sort_by_key" | "set")
+        matches!(m.method.to_string().as_str(), "push" | "push_str" | "clear" | "truncate" | "extend_from_slice" | "resize" | "store_le" | "pop" | "sort_by_key" | "sort_unstable_by_key" | "set" | "next")
     }
 
     /// `v.push(x)` and friends as a statement: rebind the receiver
@@ -1078,7 +1235,12 @@ impl<'g> FnCx<'g> {
             steps.push(Step::BindOk(var.lean.clone(), format!("rsSetBit {} {} {}", var.lean, paren_atom(&i.atom), paren_atom(&b.atom))));
             return Ok(steps);
         }
-        let (name, var) = self.assign_target(&m.receiver)?;
+        let (cur, pty, setter) = self.place(&m.receiver)?;
+        let name = match strip_paren(&m.receiver) {
+            syn::Expr::Path(p) if p.path.segments.len() == 1 => p.path.segments[0].ident.to_string(),
+            _ => String::new(),
+        };
+        let var = Var { lean: cur, ty: pty };
         let vty = self.u.resolve(&var.ty);
         let elem = match &vty {
             Ty::List(t) => (**t).clone(),
@@ -1100,7 +1262,9 @@ impl<'g> FnCx<'g> {
                     }
                 } else {
                     let t = self.u.unify(&elem, &at)?;
-                    self.set_ty(&name, Ty::list(t));
+                    if !name.is_empty() {
+                        self.set_ty(&name, Ty::list(t));
+                    }
                 }
                 format!("{} ++ [{}]", var.lean, a.atom)
             }
@@ -1110,20 +1274,28 @@ impl<'g> FnCx<'g> {
                 format!("{} ++ {}", var.lean, a.atom)
             }
             ("clear", 0) => "[]".to_string(),
+            // `it.next();` on an iterator held in a variable (a list of the remaining items): drop the first
+            ("next", 0) => format!("{}.tail", var.lean),
             // `v.pop();` as a statement: the popped value is dropped
             ("pop", 0) => format!("{}.dropLast", var.lean),
-            ("sort_by_key", 1) => {
-                // slice::sort_by_key is a stable sort: mirrored by a stable insertion sort on the key
-                let cl = match strip_paren(&m.args[0]) {
-                    syn::Expr::Closure(c) => c,
-                    _ => return unsupported("sort_by_key with a non-closure", m.span()),
+            ("sort_by_key", 1) | ("sort_unstable_by_key", 1) => {
+                // sort_by_key is a stable sort; sort_unstable_by_key is mirrored as stable too (trusted-base assumption)
+                let f = match strip_paren(&m.args[0]) {
+                    syn::Expr::Closure(c) => self.closure_arg(c, &[elem.clone()])?,
+                    other => self.expr(other, None)?,
                 };
-                let f = self.closure_arg(cl, &[elem.clone()])?;
-                match &f.ty {
-                    Ty::Fun(_, r) if matches!(**r, Ty::Int(it) if !it.signed()) => {}
-                    _ => return unsupported("sort_by_key with a non-unsigned key", m.span()),
+                steps.extend(f.steps.clone());
+                match self.u.resolve(&f.ty) {
+                    Ty::Fun(a, r) if a.len() == 1 => {
+                        self.u.unify(&a[0], &elem)?;
+                        match *r {
+                            Ty::Int(it) if !it.signed() => format!("rsSortByKey {} {}", f.atom, var.lean),
+                            Ty::Tuple(ts) if ts.len() == 2 && ts.iter().all(|q| matches!(q, Ty::Int(it) if !it.signed())) => format!("rsSortByKeyP {} {}", f.atom, var.lean),
+                            _ => return unsupported("sort key type", m.span()),
+                        }
+                    }
+                    _ => return unsupported("sort key function", m.span()),
                 }
-                format!("rsSortByKey {} {}", f.atom, var.lean)
             }
             ("resize", 2) => {
                 let n = self.expr(&m.args[0], Some(&Ty::usize()))?;
@@ -1141,7 +1313,7 @@ impl<'g> FnCx<'g> {
             }
             _ => return unsupported("mutating method", m.span()),
         };
-        steps.push(Step::Let(var.lean.clone(), new));
+        steps.push(setter(&new));
         Ok(steps)
     }
 
@@ -1167,6 +1339,16 @@ impl<'g> FnCx<'g> {
                 }
             }
             return self.iter_expr(&m.receiver);
+        }
+        if name == "next" && m.args.is_empty() {
+            // `it.next()` as a value: the head of the remaining items; the variable keeps the tail
+            if let Ok((_, var)) = self.assign_target(&m.receiver) {
+                if let Ty::List(t) = self.u.resolve(&var.ty) {
+                    let tmp = self.fresh_tmp();
+                    let steps = vec![Step::Let(tmp.clone(), format!("{}.head?", var.lean)), Step::Let(var.lean.clone(), format!("{}.tail", var.lean))];
+                    return Ok(Val { steps, atom: tmp, prop: None, ty: Ty::opt(*t) });
+                }
+            }
         }
         let recv = self.expr(&m.receiver, None)?;
         let rty = self.u.resolve(&recv.ty);
@@ -1227,6 +1409,123 @@ impl<'g> FnCx<'g> {
                 pure(steps, format!("(binarySearchBy {} ({}.map {}) {})", lt, paren_atom(&a), ford, paren_atom(&key.atom)), Ty::Res2(Box::new(Ty::usize()), Box::new(Ty::usize())))
             }
             (Ty::Str, "into", 0) => pure(steps, a, Ty::Str),
+            (Ty::Opt(t), "as_deref", 0) => pure(steps, a, Ty::opt((**t).clone())),
+            (Ty::Opt(t), "map", 1) if matches!(strip_paren(&m.args[0]), syn::Expr::Path(p) if path_text(&p.path) == "Into::into") => pure(steps, a, Ty::opt((**t).clone())),
+            (Ty::Opt(t), "and_then", 1) => {
+                // opt.and_then(|x| e) with a pure closure returning an Option
+                let cl = match strip_paren(&m.args[0]) {
+                    syn::Expr::Closure(c) => c,
+                    _ => return unsupported("and_then with a non-closure", m.span()),
+                };
+                let f = self.closure_arg(cl, &[(**t).clone()])?;
+                let r = match &f.ty {
+                    Ty::Fun(_, r) => (**r).clone(),
+                    _ => return unsupported("and_then closure", m.span()),
+                };
+                if !matches!(r, Ty::Opt(_)) {
+                    return unsupported("and_then closure not returning Option", m.span());
+                }
+                pure(steps, format!("({}.bind {})", paren_atom(&a), f.atom), r)
+            }
+            (Ty::Str, "trim", 0) => pure(steps, format!("(rsTrim {})", paren_atom(&a)), Ty::Str),
+            (Ty::Str, "strip_suffix", 1) => {
+                let arg = self.expr(&m.args[0], None)?;
+                steps.extend(arg.steps.clone());
+                let needle = match self.u.resolve(&arg.ty) {
+                    Ty::Char => {
+                        // only ASCII characters are supported as patterns (one byte)
+                        if !arg.atom.parse::<u32>().map(|c| c < 128).unwrap_or(false) {
+                            return unsupported("strip_suffix with a non-literal / non-ASCII char", m.span());
+                        }
+                        format!("[{}]", arg.atom)
+                    }
+                    Ty::Str => arg.atom.clone(),
+                    _ => return unsupported("strip_suffix argument", m.span()),
+                };
+                pure(steps, format!("(rsStripSuffix {} {})", needle, paren_atom(&a)), Ty::opt(Ty::Str))
+            }
+            // iterators held in variables are the list of their remaining items
+            (Ty::Str, "chars", 0) => pure(steps, format!("(rsChars {})", paren_atom(&a)), Ty::list(Ty::Char)),
+            (Ty::List(_), "peekable", 0) | (Ty::List(_), "into_iter", 0) => pure(steps, a, rty.clone()),
+            (Ty::List(t), "peek", 0) => pure(steps, format!("{}.head?", paren_atom(&a)), Ty::opt((**t).clone())),
+            (Ty::Char, "len_utf8", 0) => pure(steps, format!("(rsLenUtf8 {})", paren_atom(&a)), Ty::usize()),
+            (Ty::Char, "len_utf16", 0) => pure(steps, format!("(rsLenUtf16 {})", paren_atom(&a)), Ty::usize()),
+            (Ty::Str, "get", 1) if matches!(strip_paren(&m.args[0]), syn::Expr::Range(_)) => {
+                let r = match strip_paren(&m.args[0]) {
+                    syn::Expr::Range(r) => r,
+                    _ => unreachable!(),
+                };
+                let (lo, hi) = match (&r.start, &r.end, &r.limits) {
+                    (Some(lo), Some(hi), syn::RangeLimits::HalfOpen(_)) => (lo, hi),
+                    _ => return unsupported("str::get range form", m.span()),
+                };
+                let lo = self.expr(lo, Some(&Ty::usize()))?;
+                let hi = self.expr(hi, Some(&Ty::usize()))?;
+                self.u.unify(&lo.ty, &Ty::usize())?;
+                self.u.unify(&hi.ty, &Ty::usize())?;
+                steps.extend(lo.steps.clone());
+                steps.extend(hi.steps.clone());
+                pure(steps, format!("(rsStrGet {} {} {})", paren_atom(&a), paren_atom(&lo.atom), paren_atom(&hi.atom)), Ty::opt(Ty::Str))
+            }
+            // scroll::Pread on a byte slice
+            (Ty::List(t), "pread_with", 2) if **t == Ty::u8() => {
+                let off = self.expr(&m.args[0], Some(&Ty::usize()))?;
+                self.u.unify(&off.ty, &Ty::usize())?;
+                steps.extend(off.steps.clone());
+                let target = match &m.turbofish {
+                    Some(tf) => match tf.args.first() {
+                        Some(syn::GenericArgument::Type(t)) => Some(rust_ty(t)?),
+                        _ => None,
+                    },
+                    None => None,
+                };
+                match target {
+                    Some(Ty::Struct(n)) => {
+                        // a `#[derive(Pread)]` struct of u32 fields read little-endian (the second argument must be scroll::LE)
+                        let le = matches!(strip_paren(&m.args[1]), syn::Expr::Path(p) if path_last(&p.path) == "LE");
+                        let fields = self.g.structs.get(&n).cloned().unwrap_or_default();
+                        if !le || fields.is_empty() || !fields.iter().all(|(_, t)| *t == Ty::Int(IntTy::U32)) || !self.g.packed.contains(&n) {
+                            return unsupported("pread_with of this type / endianness", m.span());
+                        }
+                        let inits = fields.iter().enumerate().map(|(i, (f, _))| format!("{} := l_.getD {} 0", sanitize(f), i)).collect::<Vec<_>>().join(", ");
+                        pure(steps, format!("((rsPreadU32s {} {} {}).map (fun l_ => ({{ {} : {} }})))", paren_atom(&a), paren_atom(&off.atom), fields.len(), inits, n), Ty::res(Ty::Struct(n)))
+                    }
+                    None => {
+                        // `&[u8]` of the given length
+                        let n = self.expr(&m.args[1], Some(&Ty::usize()))?;
+                        self.u.unify(&n.ty, &Ty::usize())?;
+                        steps.extend(n.steps.clone());
+                        pure(steps, format!("(rsPreadBytes {} {} {})", paren_atom(&a), paren_atom(&off.atom), paren_atom(&n.atom)), Ty::res(Ty::bytes()))
+                    }
+                    _ => unsupported("pread_with target type", m.span()),
+                }
+            }
+            // error payloads are dropped, so mapping the error is the identity
+            (Ty::Res(t), "map_err", 1) => pure(steps, a, Ty::res((**t).clone())),
+            // Result::ok(): an `Err` becomes `None`; a panic / divergence of the computation is not an `Err`
+            (Ty::Res(t), "ok", 0) => {
+                let tmp = self.fresh_tmp();
+                steps.push(Step::BindOk(tmp.clone(), format!("rsOk {}", paren_atom(&a))));
+                pure(steps, tmp, Ty::opt((**t).clone()))
+            }
+            (Ty::Opt(t), "is_some_and", 1) => {
+                let cl = match strip_paren(&m.args[0]) {
+                    syn::Expr::Closure(c) if c.inputs.len() == 1 => c,
+                    _ => return unsupported("is_some_and with a non-closure", m.span()),
+                };
+                self.scopes.push(HashMap::new());
+                let mut psteps = vec![];
+                self.bind_pattern(&cl.inputs[0], "x_", t, &mut psteps)?;
+                let b = self.expr(&cl.body, Some(&Ty::Bool))?;
+                self.scopes.pop();
+                self.u.unify(&b.ty, &Ty::Bool)?;
+                let mut inner_steps = psteps;
+                inner_steps.extend(b.steps.clone());
+                let inner = wrap(&inner_steps, format!("Except.ok {}", b.atom));
+                let tmp = self.fresh_tmp();
+                steps.push(Step::BindOk(tmp.clone(), format!("(match {} with\n| none => Except.ok false\n| some x_ =>\n{})", a, indent(&inner))));
+                pure(steps, tmp, Ty::Bool)
+            }
             // bitvec views over bytes (Lsb0): bit 8*i + j is bit j of byte i
             (Ty::List(t), "view_bits", 0) if **t == Ty::u8() => pure(steps, format!("(rsViewBits {})", paren_atom(&a)), Ty::list(Ty::Bool)),
             (Ty::Str, "view_bits", 0) => pure(steps, format!("(rsViewBits {})", paren_atom(&a)), Ty::list(Ty::Bool)),
@@ -1320,6 +1619,25 @@ impl<'g> FnCx<'g> {
                 self.u.unify(&arg.ty, &Ty::Error)?;
                 steps.extend(arg.steps.clone());
                 pure(steps, format!("(match {} with | some v_ => Except.ok v_ | none => Except.error {})", a, arg.atom), Ty::res((**t).clone()))
+            }
+            (Ty::Opt(t), "map_or", 2) => {
+                // opt.map_or(default, f) with f a function value or a pure closure
+                let d = self.expr(&m.args[0], None)?;
+                steps.extend(d.steps.clone());
+                let f = match strip_paren(&m.args[1]) {
+                    syn::Expr::Closure(cl) => self.closure_arg(cl, &[(**t).clone()])?,
+                    other => self.expr(other, None)?,
+                };
+                let rty2 = match self.u.resolve(&f.ty) {
+                    Ty::Fun(a, r) if a.len() == 1 => {
+                        self.u.unify(&a[0], t)?;
+                        *r
+                    }
+                    _ => return unsupported("map_or with a non-function", m.span()),
+                };
+                let ty = self.u.unify(&rty2, &d.ty)?;
+                steps.extend(f.steps.clone());
+                pure(steps, format!("(match {} with | some v_ => {} v_ | none => {})", a, f.atom, d.atom), ty)
             }
             (Ty::Opt(t), "unwrap_or", 1) => {
                 let arg = self.expr(&m.args[0], Some(t))?;
